@@ -541,6 +541,210 @@ def r7_observers(chk, prog, L):
     return n_scan, n_cmp, unspecified
 
 
+# --------------------------------------------------------------------------- R5 / R6
+
+def exact(chk, rule, f, tag, what, s, v, cases):
+    """v has exactly the value the case table prescribes: cases = [(assumptions, expected Lin)]"""
+    ok = isinstance(v, Lin)
+    detail = '' if ok else 'value %r' % (v,)
+    hit = 0
+    if ok:
+        for assume, want in cases:
+            s1 = s.copy()
+            s1.assume(*assume)
+            if not s1.ok():
+                continue
+            hit += 1
+            if not (entails(s1.cons, ge(v, want)) and entails(s1.cons, le(v, want))):
+                ok = False
+                detail = 'value %r, expected %r on the path [%s]' % (v, want, '; '.join(s1.trail[-6:]))
+    chk.check(ok, rule, f.name, '%s [%s]' % (what, tag), f.loc(), detail)
+    return hit
+
+
+def is_elem(s, v, region, off):
+    return isinstance(v, tuple) and v and v[0] == 'lvptr' and v[1].region == region and \
+        entails(s.cons, ge(v[1].off, off)) and entails(s.cons, le(v[1].off, off))
+
+
+def r5_simple(chk, prog, eng, L):
+    cls = 'celma::common::FixedString<%d>' % L
+    n = sym('this.mLength')
+    text = 'this.mString'
+    count = 0
+    for f in sorted([g for g in prog.functions if g.cls == cls], key=lambda x: (x.line, x.key)):
+        short = f.short
+        ks = tuple(kind_of(p) for p in f.params)
+        v = [sym(p['name']) for p in f.params]
+        tag = '%s, L=%d' % (c10.sig(f), L)
+        dom = []
+        if short in ('at', 'operator[]') and ks == ('n',):
+            dom = [lt(v[0], n)]
+        elif short in ('front', 'back') and ks == ():
+            dom = [ge(n, 1)]
+        elif short == 'substr' and ks == ('n', 'n'):
+            dom = [le(v[0], n)]
+        elif short == 'copy' and len(ks) == 3:
+            dom = [le(v[2], n)]
+        elif short not in ('length', 'size', 'empty', 'c_str', 'data', 'str') or ks != ():
+            continue
+        count += 1
+        mark = len(eng.obligations)
+
+        def setup(e, st, func, dom=dom):
+            st.assume(*dom)
+        finals = eng.analyse(f, setup)
+        del eng.obligations[mark:]
+        for s in finals:
+            if s.status == 'throw':
+                chk.check(False, 'R5', f.name, 'no exception for arguments inside the domain [%s]' % tag, f.loc(),
+                          'throws on the path [%s]' % '; '.join(s.trail[-5:]))
+                continue
+            if s.status not in ('return', 'normal'):
+                continue
+            r = s.ret
+            if short in ('length', 'size'):
+                exact(chk, 'R5', f, tag, 'returns the number of characters', s, r, [([], n)])
+            elif short == 'empty':
+                exact(chk, 'R5', f, tag, 'true exactly for the empty text', s, r, [([le(n, 0)], lin(1)),
+                                                                                    ([ge(n, 1)], lin(0))])
+            elif short in ('c_str', 'data'):
+                ok = isinstance(r, Ptr) and r.region == text and entails(s.cons, ge(r.off, 0)) and \
+                    entails(s.cons, le(r.off, 0))
+                chk.check(ok, 'R5', f.name, 'returns the start of the own buffer [%s]' % tag, f.loc(), repr(r))
+            elif short in ('at', 'operator[]'):
+                chk.check(is_elem(s, r, text, v[0]), 'R5', f.name, 'returns the character at the index [%s]' % tag,
+                          f.loc(), repr(r))
+            elif short == 'front':
+                chk.check(is_elem(s, r, text, lin(0)), 'R5', f.name, 'returns the first character [%s]' % tag, f.loc(),
+                          repr(r))
+            elif short == 'back':
+                chk.check(is_elem(s, r, text, n - 1), 'R5', f.name, 'returns the last character [%s]' % tag, f.loc(),
+                          repr(r))
+            elif short in ('str', 'substr'):
+                pos, cnt = (lin(0), n) if short == 'str' else (v[0], v[1])
+                if not isinstance(r, Obj):
+                    chk.check(False, 'R5', f.name, 'returns a string [%s]' % tag, f.loc(), repr(r))
+                    continue
+                ln = s.fields.get((r.name, 'length'))
+                exact(chk, 'R5', f, tag, 'length of the returned string is min( count, length - pos)', s, ln,
+                      [([le(cnt, n - pos)], cnt), ([ge(cnt, n - pos)], n - pos)])
+                s1 = s.copy()
+                if isinstance(ln, Lin):
+                    s1.assume(ge(ln, 1))
+                    if s1.ok():
+                        src = s.fields.get((r.name, 'source'))
+                        ok = isinstance(src, Ptr) and src.region == text and entails(s1.cons, ge(src.off, pos)) and \
+                            entails(s1.cons, le(src.off, pos))
+                        chk.check(ok, 'R5', f.name, 'the returned string is taken from the own text at pos [%s]' % tag,
+                                  f.loc(), repr(src))
+            elif short == 'copy':
+                cnt, pos = v[1], v[2]
+                hit = exact(chk, 'R5', f, tag, 'returns min( count, length - pos)', s, r,
+                            [([le(cnt, n - pos)], cnt), ([ge(cnt, n - pos)], n - pos)])
+                if isinstance(r, Lin):
+                    i = eng.fresh('pos', s, 'unsigned long')
+                    s2 = s.copy()
+                    s2.assume(ge(i, 0), lt(i, r))
+                    bad = None
+                    if s2.ok():
+                        for act, sa in eng.content_at(s2, f.params[0]['name'], i):
+                            if act[0] in ('unknown', 'opaque'):
+                                continue
+                            if not same(eng, sa, act, ('init', text, pos + i)):
+                                bad = 'dest[ %r] holds %s' % (i, show(act))
+                    chk.check(bad is None, 'R5', f.name, 'the copied characters are text[ pos + i] [%s]' % tag, f.loc(),
+                              bad or '')
+    chk.require(count >= 16, 'only %d simple observers of FixedString<%d> found' % (count, L))
+    return count
+
+
+def r6_iteration(chk, prog, eng, L):
+    """begin/end/rbegin/rend and the stepping of the iterator classes: exact positions"""
+    cls = 'celma::common::FixedString<%d>' % L
+    n = sym('this.mLength')
+    END = c10.END
+    count = 0
+    for f in sorted([g for g in prog.functions if g.cls == cls and g.short in (
+            'begin', 'cbegin', 'end', 'cend', 'rbegin', 'crbegin', 'rend', 'crend') and not g.params],
+            key=lambda x: (x.line, x.key)):
+        tag = '%s, L=%d' % (c10.sig(f), L)
+        mark = len(eng.obligations)
+        finals = eng.analyse(f)
+        del eng.obligations[mark:]
+        count += 1
+        for s in finals:
+            if s.status not in ('return', 'normal'):
+                continue
+            r = s.ret
+            if not isinstance(r, Obj):
+                chk.check(False, 'R6', f.name, 'returns an iterator object [%s]' % tag, f.loc(), repr(r))
+                continue
+            po = s.fields.get((r.name, 'mpObject'))
+            chk.check(isinstance(po, Obj) and po.name == 'this', 'R6', f.name, 'the iterator refers to this string '
+                      '[%s]' % tag, f.loc(), repr(po))
+            ix = s.fields.get((r.name, 'mIndex'))
+            if f.short in ('begin', 'cbegin'):
+                cases = [([ge(n, 1)], lin(0)), ([le(n, 0)], lin(END))]
+                what = 'starts at the first character (end marker for an empty text)'
+            elif f.short in ('rbegin', 'crbegin'):
+                cases = [([ge(n, 1)], n - 1), ([le(n, 0)], lin(END))]
+                what = 'starts at the last character (end marker for an empty text)'
+            else:
+                cases = [([], lin(END))]
+                what = 'is the end marker'
+            exact(chk, 'R6', f, tag, what, s, ix, cases)
+    its = [f for f in prog.functions if c10.ITER.match(f.cls or '') and
+           f.short in ('operator++', 'operator--', 'operator*') and not f.d.get('defaulted')]
+    chk.require(count >= 12 and len(its) >= 20, 'iteration members missing (%d, %d)' % (count, len(its)))
+    for f in sorted(its, key=lambda x: (x.cls, x.line, x.key)):
+        m = c10.ITER.match(f.cls)
+        rev = bool(m.group(1))
+        tag = 'FixedString%sIterator<%schar>::%s(%s)' % (m.group(1) or '', m.group(2) or '', f.short,
+                                                        ', '.join(p['t'] for p in f.params))
+        fsn = 'fs@this'
+
+        def setup(e, st, func):
+            st.fields[('this', 'mpObject')] = Obj(fsn, 'celma::common::FixedString<%d>' % L)
+            ln, region = c10.fs_fields(e, st, fsn, L)
+            st.assume(ge(ln, 0), le(ln, L))
+            e.add_nul(st, region, ln)
+            ix = e.named('this.mIndex', st, 'unsigned long')
+            st.assume(lt(ix, ln))
+            st.fields[('this', 'mIndex')] = ix
+            st.ftypes[('this', 'mIndex')] = 'unsigned long'
+        mark = len(eng.obligations)
+        finals = eng.analyse(f, setup)
+        del eng.obligations[mark:]
+        i = sym('this.mIndex')
+        ln = sym('%s.mLength' % fsn)
+        for s in finals:
+            if s.status == 'throw':
+                chk.check(False, 'R6', f.name, 'no exception for an iterator inside the text [%s]' % tag, f.loc(),
+                          '; '.join(s.trail[-4:]))
+                continue
+            if s.status not in ('return', 'normal'):
+                continue
+            if f.short == 'operator*':
+                chk.check(is_elem(s, s.ret, fsn + '.mString', i), 'R6', f.name, 'yields the character at the '
+                          'iterator position [%s]' % tag, f.loc(), repr(s.ret))
+                continue
+            towards_end = (f.short == 'operator++') != rev       # index grows
+            new = s.fields.get(('this', 'mIndex'))
+            if towards_end:
+                cases = [([le(i + 1, ln - 1)], i + 1), ([ge(i + 1, ln)], lin(END))]
+                what = 'moves to the next higher index, to the end marker after the last character'
+            else:
+                cases = [([ge(i, 1)], i - 1), ([le(i, 0)], lin(END))]
+                what = 'moves to the next lower index, to the end marker after the first character'
+            exact(chk, 'R6', f, tag, what, s, new, cases)
+            if f.params:      # postfix: the returned copy keeps the old position
+                r = s.ret
+                old = s.fields.get((r.name, 'mIndex')) if isinstance(r, Obj) else None
+                exact(chk, 'R6', f, tag, 'the postfix form returns the old position', s, old, [([], i)])
+    return count + len(its)
+
+
 def run(chk):
     drv = os.path.join(VERIF, 'drivers', 'fixed_string.cpp')
     extra = ['-DVERIF_THOROUGH'] if chk.tier == 'thorough' else []
@@ -575,6 +779,11 @@ def run(chk):
         r4_swap(chk, prog, eng, L)
         chk.samples.append({'capacity': L, 'mutators_specified': n_spec, 'position_cases': n_cases,
                             'undecided_position_cases': und, 'unspecified': unspecified})
+    chk.rule('R5', 'simple observers return what std::string returns (length, element access, substr, copy)', 24)
+    chk.rule('R6', 'iteration: begin/rbegin positions, exact stepping, dereference at the position', 60)
+    for L in grid[:1] if chk.tier == 'quick' else grid:
+        r5_simple(chk, prog, eng, L)
+    r6_iteration(chk, prog, eng, 10)
     chk.rule('R7', 'searching observers: first/last matching candidate position, else npos/false (linear-search proof)',
              150)
     chk.rule('R8', 'compare(): sign of memcmp over the common length, else sign of the length difference', 30)
